@@ -52,6 +52,9 @@ pub struct Scenario {
 	pub deviation_bounded: bool,
 	/// near_full: how many small entries still fit the active memtable after the prefill
 	pub room: usize,
+	/// two flushers: the background flush and a checkpoint (which flushes synchronously), with
+	/// one immutable memtable pending and a non-empty active memtable; no committers
+	pub two_flushers: bool,
 	/// preemption bounds (quick, thorough)
 	pub bounds: (usize, usize),
 }
@@ -72,6 +75,7 @@ pub fn scenarios(property: &str, tier: Tier) -> Vec<Scenario> {
 		symmetric: false,
 		deviation_bounded: false,
 		room: 1,
+		two_flushers: false,
 		bounds: (2, 3),
 	};
 	let all = vec![
@@ -188,6 +192,13 @@ pub fn scenarios(property: &str, tier: Tier) -> Vec<Scenario> {
 			..base.clone()
 		},
 		Scenario {
+			name: "c06-checkpoint-flush-vs-background-flush",
+			property: "C06",
+			bounds: (2, 3),
+			two_flushers: true,
+			..base.clone()
+		},
+		Scenario {
 			name: "c11-flush-and-cleanup-during-compaction",
 			property: "C11",
 			bounds: (2, 3),
@@ -271,6 +282,22 @@ fn setup(sc: &Scenario) -> Result<Setup, String> {
 		w.physical(crate::world::Phys::FlushAll)?;
 		put(&mut w, "z9")?;
 		w.physical(crate::world::Phys::Rotate)?;
+		let tree = w.tree().clone();
+		return Ok(Setup {
+			world: w,
+			tree,
+			prefill_entries: 4,
+		});
+	}
+	if sc.two_flushers {
+		let mut w = World::new(OptSet::base("sched-two-flushers").levels(2).cache(0), &[])?;
+		for k in ["f1", "f2"] {
+			w.commit(&[crate::model::Write::set(k.as_bytes(), format!("value-of-{k}").as_bytes())], surrealkv::Durability::Eventual)?.map_err(|e| e)?;
+		}
+		w.physical(crate::world::Phys::Rotate)?;
+		for k in ["f3", "f1"] {
+			w.commit(&[crate::model::Write::set(k.as_bytes(), format!("newer-value-of-{k}").as_bytes())], surrealkv::Durability::Eventual)?.map_err(|e| e)?;
+		}
 		let tree = w.tree().clone();
 		return Ok(Setup {
 			world: w,
@@ -405,6 +432,24 @@ fn run_schedule(sc: &Scenario, prefix: &[usize]) -> Result<Outcome, String> {
 			}
 		}));
 	}
+	if sc.two_flushers {
+		for which in 0..2 {
+			let tree = su.tree.clone();
+			let rt_handle = su.world.rt.as_ref().unwrap().handle().clone();
+			programs.push(Box::new(move |_s: &Arc<Sched>, _me: usize| -> Result<(), String> {
+				let _g = rt_handle.enter();
+				if which == 0 {
+					tree.verif_flush_oldest().map_err(|e| format!("background flush: {e}"))?;
+				} else {
+					let d = crate::util::fresh_dir("sched-ck");
+					let r = tree.create_checkpoint(&d).map(|_| ()).map_err(|e| format!("checkpoint: {e}"));
+					let _ = std::fs::remove_dir_all(&d);
+					r?;
+				}
+				Ok(())
+			}));
+		}
+	}
 	if sc.vlog {
 		for which in 0..2 {
 			let tree = su.tree.clone();
@@ -481,7 +526,42 @@ fn run_schedule(sc: &Scenario, prefix: &[usize]) -> Result<Outcome, String> {
 		}));
 	}
 	// probe: a fresh read-only transaction at every scheduling point
-	let probe: Option<ProbeFn> = if sc.property == "C11" {
+	let flusher_expect: Vec<(&str, String)> = vec![("f1", "newer-value-of-f1".to_string()), ("f2", "value-of-f2".to_string()), ("f3", "newer-value-of-f3".to_string())];
+	let probe: Option<ProbeFn> = if sc.two_flushers {
+		let tree = su.tree.clone();
+		let board = Arc::clone(&board);
+		let rt_handle = su.world.rt.as_ref().unwrap().handle().clone();
+		let expect = flusher_expect.clone();
+		Some(Box::new(move |step: usize, label: &'static str| {
+			let _g = rt_handle.enter();
+			let mut obs = ProbeObs {
+				step,
+				label,
+				visible_seq: 0,
+				view: BTreeMap::new(),
+				returned_ok: vec![],
+				err: None,
+			};
+			match tree.begin_with_mode(Mode::ReadOnly) {
+				Ok(t) => {
+					for (k, v) in &expect {
+						match t.get(k.as_bytes()) {
+							Ok(Some(g)) if g == v.as_bytes() => {}
+							Ok(other) => obs.err = Some(format!("get({k}) = {:?}, expected {v}", other.map(|x| String::from_utf8_lossy(&x).to_string()))),
+							Err(e) => obs.err = Some(format!("get({k}): {e}")),
+						}
+					}
+					match t.range(crate::world::LO, crate::world::HI).map_err(|e| format!("{e}")).and_then(|mut it| crate::world::scan_fwd(&mut it)) {
+						Ok(p) if p.len() == expect.len() => {}
+						Ok(p) => obs.err = Some(format!("scan returned {} keys, expected {}", p.len(), expect.len())),
+						Err(e) => obs.err = Some(format!("scan: {e}")),
+					}
+				}
+				Err(e) => obs.err = Some(format!("begin: {e}")),
+			}
+			board.probes.lock().unwrap().push(obs);
+		}))
+	} else if sc.property == "C11" {
 		let tree = su.tree.clone();
 		let board = Arc::clone(&board);
 		let rt_handle = su.world.rt.as_ref().unwrap().handle().clone();
@@ -551,7 +631,7 @@ fn run_schedule(sc: &Scenario, prefix: &[usize]) -> Result<Outcome, String> {
 	let preempted = ex.points.iter().any(|p| p.running_enabled && p.chosen != 0);
 	let mut out = Outcome {
 		awaited: ex.points.iter().any(|p| p.label == "await"),
-		shape_changed: su.world.shape().map(|s| !s.immutables.is_empty() || s.levels.iter().any(|l| !l.is_empty())).unwrap_or(false) && !sc.reader && !sc.vlog,
+		shape_changed: su.world.shape().map(|s| !s.immutables.is_empty() || s.levels.iter().any(|l| !l.is_empty())).unwrap_or(false) && !sc.reader && !sc.vlog && !sc.two_flushers,
 		exec_points: ex.points.clone(),
 		failure: None,
 		obs_hash: 0,
@@ -771,6 +851,49 @@ fn run_schedule(sc: &Scenario, prefix: &[usize]) -> Result<Outcome, String> {
 					}
 				}
 			}
+		}
+		"C06" => {
+			for (i, r) in results.iter().enumerate() {
+				if let Err(e) = r {
+					out.failure = Some((format!("flusher-error:{}", crate::props::norm_msg(e).chars().take(60).collect::<String>()), format!("thread {i}: {e}")));
+					return Ok(out);
+				}
+			}
+			let probes = board.probes.lock().unwrap().clone();
+			for p in &probes {
+				if let Some(e) = &p.err {
+					out.failure = Some(("answer-changed-during-flush".into(), format!("probe at point {} ({}): {e}", p.step, p.label)));
+					return Ok(out);
+				}
+			}
+			// afterwards: the same answers from the running store and from a clean reopen
+			let mut w2 = su.world;
+			for round in ["running store", "after close and reopen"] {
+				if round != "running store" {
+					if let Err(e) = w2.reopen() {
+						out.failure = Some((format!("reopen-fails:{}", crate::props::norm_msg(&e).chars().take(60).collect::<String>()), format!("after both flushers finished: {e}")));
+						return Ok(out);
+					}
+				}
+				match w2.dump() {
+					Ok(d) => {
+						let got: Vec<(String, String)> = d.iter().map(|(k, v)| (String::from_utf8_lossy(k).to_string(), String::from_utf8_lossy(v).to_string())).collect();
+						let want: Vec<(String, String)> = flusher_expect.iter().map(|(k, v)| (k.to_string(), v.clone())).collect();
+						if got != want {
+							out.failure = Some(("answer-changed-after-flush".into(), format!("{round}: {got:?}, expected {want:?}")));
+							return Ok(out);
+						}
+					}
+					Err(e) => {
+						out.failure = Some(("read-error-after-flush".into(), format!("{round}: {e}")));
+						return Ok(out);
+					}
+				}
+			}
+			let _ = w2.close();
+			h.push_str(&format!("{}", probes.len()));
+			out.obs_hash = crate::util::fnv64(h.as_bytes());
+			return Ok(out);
 		}
 		"C11" => {
 			for (i, r) in results.iter().enumerate() {
